@@ -72,6 +72,36 @@ theorem helper_is_current_after_history (hist : List Step) (s : Step) (name : St
   rw [hf.1, hname, hd] at hc
   exact (Option.some.inj hc).symm
 
+theorem enter_of_fresh (disk : Disk) (dir : String) (r : Registry) (h : Fresh disk dir r) : enter disk dir r = r := by
+  unfold enter
+  split
+  · rename_i hany
+    obtain ⟨x, hx, hc⟩ := List.any_eq_true.mp hany
+    have := h x hx
+    simp [this.1, this.2] at hc
+  · rfl
+
+theorem foldl_noexec (disk : Disk) (dir : String) (r : Registry) : ∀ (names : List String) (done : List String),
+    (∀ n ∈ names, r.any (·.name == n) = true) →
+    names.foldl (fun (acc : Registry × List String) n =>
+      let p := importMod disk dir acc.1 n
+      (p.1, if p.2 then acc.2 ++ [n] else acc.2)) (r, done) = (r, done)
+  | [], _, _ => rfl
+  | n :: rest, done, h => by
+    have hn : r.any (·.name == n) = true := h n (by simp)
+    simp only [List.foldl_cons, importMod, hn, if_true, Bool.false_eq_true, if_false]
+    exact foldl_noexec disk dir r rest done (fun m hm => h m (by simp [hm]))
+
+/-- **Nothing is loaded twice while nothing changes**: a program of the same directory whose helpers are all loaded, from files that
+are still the ones on disk, executes none of them again (helper modules of one directory are imported once — what the entry-point
+composition K10 relies on, and what makes module-level state of a helper persist between programs of its directory by design). -/
+theorem compileFrom_noexec (disk : Disk) (dir : String) (names : List String) (r : Registry)
+    (hf : Fresh disk dir r) (hl : ∀ n ∈ names, r.any (·.name == n) = true) :
+    compileFrom disk dir names r = (r, []) := by
+  unfold compileFrom
+  rw [enter_of_fresh disk dir r hf]
+  exact foldl_noexec disk dir r names [] hl
+
 /-- Sensitivity: forgetting only the helper whose own file changed (the behaviour before repair `0dc3edb`) leaves a registry that
 is not fresh for a second helper loaded from a file that changed as well … the invariant is about *every* loaded helper. -/
 example : ¬ Fresh (fun _ n => if n = "inner" then some 2 else some 1) "d" [⟨"outer", "d", 1⟩, ⟨"inner", "d", 1⟩] := by
